@@ -20404,6 +20404,9 @@ impl<
 		#[cfg(not(test))]
 		let reconstruct_manager_from_monitors =
 			RECONSTRUCT_HTLCS_FROM_CHANS_VERSION.is_some_and(|v| _version >= v);
+		#[cfg(all(not(test), feature = "_verif_hooks"))]
+		let reconstruct_manager_from_monitors =
+			verif_hooks_reload::reconstruct_override().unwrap_or(reconstruct_manager_from_monitors);
 		#[cfg(test)]
 		let reconstruct_manager_from_monitors =
 			args.reconstruct_manager_from_monitors.unwrap_or_else(|| {
@@ -23021,5 +23024,37 @@ pub mod verif_hooks_monupd {
 			.map(|a| a.len())
 			.unwrap_or(0);
 		Some((view, in_flight, blocked_actions))
+	}
+}
+
+/// Verification hooks (feature `_verif_hooks` only); see `ln::verif_hooks`. Lets an external
+/// harness select which of the two `ChannelManager` load paths is taken, as
+/// `ChannelManagerReadArgs::reconstruct_manager_from_monitors` does for the crate's own tests.
+#[cfg(feature = "_verif_hooks")]
+pub mod verif_hooks_reload {
+	use core::sync::atomic::{AtomicU8, Ordering};
+
+	static MODE: AtomicU8 = AtomicU8::new(0);
+
+	/// `None`: the library decides (from the serialized version). `Some(b)`: the next reads
+	/// reconstruct pending HTLCs from `Channel{Monitor}` data iff `b`.
+	pub fn set_reconstruct_manager_from_monitors(mode: Option<bool>) {
+		MODE.store(
+			match mode {
+				None => 0,
+				Some(false) => 1,
+				Some(true) => 2,
+			},
+			Ordering::SeqCst,
+		);
+	}
+
+	#[allow(dead_code)]
+	pub(super) fn reconstruct_override() -> Option<bool> {
+		match MODE.load(Ordering::SeqCst) {
+			1 => Some(false),
+			2 => Some(true),
+			_ => None,
+		}
 	}
 }
